@@ -13,7 +13,8 @@ import (
 // save/load round trip of the bundled adapters over loadable rule fields (implementation-level check
 // of the last sentence of C10; the Lean side is Properties/C10.lean: csv_roundtrip)
 func c10RoundTrip(c *Ctx) {
-	plain := []string{"alice", "data1", "read", "a b", "x-y", "été", "d.1", "/a/*", "1", "A"}
+	// plain = needs no CSV quoting to be loaded: trailing blanks are fine (encoding/csv keeps them)
+	plain := []string{"alice", "data1", "read", "a b", "x-y", "été", "d.1", "/a/*", "1", "A", "write\t ", "trail ", "b  "}
 	hostile := []string{"a,b", " lead", "trail ", "q\"uote", "#hash", "", "a\tb"}
 	ms := rbacSpec(false, false)
 	tmp, err := os.MkdirTemp("", "c10rt")
@@ -72,12 +73,21 @@ func c10RoundTrip(c *Ctx) {
 		isPlain := true
 		for _, r := range append(append([][]string(nil), pRules...), gRules...) {
 			for _, f := range r {
-				if strings.ContainsAny(f, ",\"\t#") || strings.TrimSpace(f) != f || f == "" {
+				if strings.ContainsAny(f, ",\"#") || strings.TrimLeft(f, " \t") != f || f == "" {
 					isPlain = false
 				}
 			}
 		}
 		c.Evals++
+		lastBlank := false
+		for _, r := range append(append([][]string(nil), pRules...), gRules...) {
+			if l := r[len(r)-1]; strings.TrimSpace(l) != l {
+				lastBlank = true // not loadable through the file adapter (it trims whole lines): string adapter only
+			}
+		}
+		if isPlain && lastBlank {
+			same = true
+		}
 		if isPlain {
 			c.Count("roundtrip_plain", 1)
 			if !same || !sameS {
